@@ -3,19 +3,35 @@ import MdIt.Props.C05Tabs
 #check @MdIt.Pipeline.doc_ranges_ordered_all
 #check @MdIt.Pipeline.doc_child_within_all
 #check @MdIt.Pipeline.doc_boundaries_all
-#check @MdIt.C05T.parseInline_bd
-#check @MdIt.Block.inlSpec3_ptabsF
+#check @MdIt.Pipeline.doc_ranges_ok_all
+#check @MdIt.Pipeline.doc_text_faithful_all
 #check @MdIt.Pipeline.afterBlocks_postBd
-#check @MdIt.C05T.pinl_of_mapT
-#check @MdIt.C05T.mapT_of_virt
+#check @MdIt.Pipeline.afterBlocks_nodeOkX
 #check @MdIt.Block.inlSpec2_ptabs
+#check @MdIt.Block.inlSpec3_ptabsF
+#check @MdIt.C05T.mapT_of_virt
+#check @MdIt.C05T.pinl_of_mapT
+#check @MdIt.C05T.parseInline_bd
+#check @MdIt.C05T.bdEmphOK
+#check @MdIt.C05T.parseInline_fthV
+#check @MdIt.C05T.emphOKV
+#check @MdIt.C05T.codeCloserOK
+#check @MdIt.C05T.linkCloserOK
 
 #print axioms MdIt.Pipeline.doc_ranges_ordered_all
 #print axioms MdIt.Pipeline.doc_child_within_all
 #print axioms MdIt.Pipeline.doc_boundaries_all
-#print axioms MdIt.C05T.parseInline_bd
-#print axioms MdIt.Block.inlSpec3_ptabsF
+#print axioms MdIt.Pipeline.doc_ranges_ok_all
+#print axioms MdIt.Pipeline.doc_text_faithful_all
 #print axioms MdIt.Pipeline.afterBlocks_postBd
-#print axioms MdIt.C05T.pinl_of_mapT
-#print axioms MdIt.C05T.mapT_of_virt
+#print axioms MdIt.Pipeline.afterBlocks_nodeOkX
 #print axioms MdIt.Block.inlSpec2_ptabs
+#print axioms MdIt.Block.inlSpec3_ptabsF
+#print axioms MdIt.C05T.mapT_of_virt
+#print axioms MdIt.C05T.pinl_of_mapT
+#print axioms MdIt.C05T.parseInline_bd
+#print axioms MdIt.C05T.bdEmphOK
+#print axioms MdIt.C05T.parseInline_fthV
+#print axioms MdIt.C05T.emphOKV
+#print axioms MdIt.C05T.codeCloserOK
+#print axioms MdIt.C05T.linkCloserOK
